@@ -54,6 +54,15 @@ Proof.
 Qed.
 Print Assumptions C20_only_removes_rejections.
 
+(* stronger form, covering hook failures and their rollbacks: wherever the run with the checks OFF
+   stays inside the modelled domain (no type/loop check would have fired), the run with the checks ON
+   computes exactly the same state and outcome *)
+Theorem C20_forest_guards_pure_strong : forall cfg s o,
+  snd (step (with_assert cfg false) s o) <> Err Unmodelled ->
+  step (with_assert cfg true) s o = step (with_assert cfg false) s o.
+Proof. exact step_guards_pure. Qed.
+Print Assumptions C20_forest_guards_pure_strong.
+
 Example C20_nonvacuous :
   let cfg := {| assertions := true; is_node := true |} in
   let ops := [SetChildren 0 CTuple [ANode 1; ANode 2] NoFault; SetParent 3 (ANode 2) NoFault; Sort 0 [0; 2; 1; 0] true] in
